@@ -6,7 +6,7 @@
 use super::{PropResult, RunCfg};
 use crate::json::J;
 use crate::prng::{fnv1a, Rng};
-use crate::report::{run_parallel, workers, CaseOut, Report, Verdict, Violation};
+use crate::report::{workers, CaseOut, Report, Verdict, Violation};
 use crate::spy::SpyTerm;
 use indicatif::{MultiProgress, ProgressBar, ProgressDrawTarget, ProgressFinish, ProgressIterator, ProgressStyle};
 use std::io::Read;
@@ -372,9 +372,9 @@ pub fn run(cfg: &RunCfg) -> PropResult {
         }
     } else {
         let n = if cfg.thorough { 600_000 } else { 20_000 };
-        report = run_parallel(n, workers(), |i| inproc_case(cfg.seed, i));
+        report = crate::report::run_parallel_tagged('i', n, workers(), |i| inproc_case(cfg.seed, i));
         let nr = if cfg.thorough { 30_000 } else { 600 };
-        report.merge(run_parallel(nr, 8, |i| remove_race_case(cfg.seed, i)));
+        report.merge(crate::report::run_parallel_tagged('r', nr, 8, |i| remove_race_case(cfg.seed, i)));
         let (children, per) = if cfg.thorough { (16, 6000) } else { (8, 400) };
         run_children(&mut report, cfg.seed, 0, children, per);
     }
